@@ -122,6 +122,96 @@ def ser_msg(m) -> int:
     return pack(ser_chunks(m))
 
 
+class _Reader:
+    """reads the serialisation back (evidence that it is uniquely decodable: used by unser / the self-check)"""
+
+    def __init__(self, n: int):
+        b = n.to_bytes((n.bit_length() + 7) // 8, "big")
+        assert b[:1] == b"\x01"
+        self.b, self.i = b, 1
+
+    def take(self, k):
+        r = self.b[self.i:self.i + k]
+        assert len(r) == k
+        self.i += k
+        return r
+
+    def u8(self):
+        return self.take(1)[0]
+
+    def u32(self):
+        return int.from_bytes(self.take(4), "big")
+
+    def nat(self):
+        return int.from_bytes(self.take(self.u32()), "big")
+
+    def int_(self):
+        s = self.u8()
+        assert s in (0, 1)
+        v = self.nat()
+        return -v if s else v
+
+    def str_(self):
+        x = self.nat()
+        b = x.to_bytes((x.bit_length() + 7) // 8, "big")
+        assert b[:1] == b"\x01"
+        return b[1:].decode("utf-8")
+
+    def ostr(self):
+        return self.str_() if self.u8() else None
+
+    def value(self):
+        t = self.u8()
+        if t == 0:
+            return ("none",)
+        if t == 1:
+            return ("int", self.int_())
+        if t == 2:
+            return ("float", int.from_bytes(self.take(8), "big"))
+        if t == 3:
+            return ("nan",)
+        if t in (4, 5):
+            return ("text" if t == 4 else "bytes", self.take(self.u32()))
+        assert t in (6, 7)
+        return ("date" if t == 6 else "time", self.int_())
+
+
+def unser(n: int):
+    """the content of a serialised message: (pgn, id, description, ttl, [field tuples])"""
+    r = _Reader(n)
+    pgn, mid, descr = r.int_(), r.str_(), r.str_()
+    ttl = r.int_() if r.u8() else None
+    fields = []
+    for _ in range(r.u32()):
+        fields.append((r.str_(), r.str_(), r.ostr(), r.ostr(), r.value(), r.value(), r.ostr(), r.str_(), bool(r.u8())))
+    assert r.i == len(r.b)
+    return pgn, mid, descr, ttl, fields
+
+
+def _plain(v):
+    if v is None:
+        return ("none",)
+    if isinstance(v, (bool, int)):
+        return ("int", int(v))
+    if isinstance(v, float):
+        return ("nan",) if math.isnan(v) else ("float", struct.unpack(">Q", struct.pack(">d", v))[0])
+    if isinstance(v, str):
+        return ("text", v.encode("utf-8"))
+    if isinstance(v, (bytes, bytearray)):
+        return ("bytes", bytes(v))
+    if isinstance(v, _dt.date):
+        return ("date", (v - EPOCH).days)
+    return ("time", v.hour * 3600 + v.minute * 60 + v.second)
+
+
+def content(m):
+    ttl = None if m.ttl is None else int(m.ttl.total_seconds() * 1000)
+    return (m.PGN, m.id, m.description, ttl,
+            [(f.id, f.name, f.description, f.unit_of_measurement, _plain(f.value), _plain(f.raw_value),
+              None if f.physical_quantities is None else f.physical_quantities.name, f.type.name,
+              bool(f.part_of_primary_key)) for f in m.fields])
+
+
 # ------------------------------------------------------------------ observing the real decoder
 FRONT = {"decode_tcp", "decode_usb", "decode_yacht_devices_string", "decode_actisense_string", "decode_basic_string",
          "_extract_header"}
@@ -203,7 +293,9 @@ def observe(dec, clock: Clock, kind: int, inp, win: bool):
         if r is None:
             ob = ("none",)
         else:
-            ob = ("msg", r.PGN, r.id, r.source, r.destination, r.priority, H.iso_tuple(r.source_iso_name), ser_chunks(r))
+            ch = ser_chunks(r)
+            assert unser(pack(ch)) == content(r), "serialisation does not read back"
+            ob = ("msg", r.PGN, r.id, r.source, r.destination, r.priority, H.iso_tuple(r.source_iso_name), ch)
     ts = clock.calls[-1] if clock.calls else None
     return ob, ts
 
@@ -472,10 +564,12 @@ def gen(ctx):
         ctx.extra_obligations.append({"name": f"OblE2E.v:{nm}", "ok": ok, "detail": out[-800:] if not ok else ""})
     import re
     m = re.search(r"=\s*\((\d+)%nat,\s*(\d+)%nat,\s*(\d+)%nat,\s*(\d+)%nat,\s*(\d+)%nat\)", " ".join(out.split()))
+    m2 = re.search(r"\(88888,\s*(\d+)%nat\)", " ".join(out.split()))
     if m:
-        ctx.notes.append(f"end-to-end theorem E2E_any_entry covers {m.group(4)} of {m.group(3)} bound definitions (fixed layout, "
-                         f"group in the scope of C08: {m.group(2)} of {m.group(1)} groups); {m.group(5)} of them belong to "
-                         f"single-frame PGNs (reached frame by frame), the others through the already-combined entry points")
+        ctx.notes.append(f"end-to-end theorems: E2E_any_entry covers {m.group(4)} of {m.group(3)} bound definitions (fixed layout, "
+                         f"group in the scope of C08: {m.group(2)} of {m.group(1)} groups), {m.group(5)} of them of single-frame "
+                         f"PGNs (reached frame by frame; the others through the already-combined entry points); with "
+                         f"E2E_undispatched: {m2.group(1) if m2 else '?'} (every fixed-layout bound definition)")
     if not ok:
         ctx.hints.append({"kind": "tables", "diag": "OblE2E.v: " + " ".join(out.split())[-800:]})
 
